@@ -22,6 +22,24 @@ PROP = 'C13'
 IMPORTS = 'Kernel Check Edit'
 
 
+import time as _time
+_FAMILY_BUDGET_S = 300 if os.environ.get('VERIF_TIER', 'quick') != 'quick' else None
+
+
+class _Budget:
+    """Wall-clock budget of one generated family (thorough tier only; the quick tier runs its fixed counts)."""
+    def __init__(self, run, name):
+        self.run, self.name, self.t0, self.told = run, name, _time.time(), False
+
+    def over(self):
+        if _FAMILY_BUDGET_S is not None and _time.time() - self.t0 > _FAMILY_BUDGET_S:
+            if not self.told:
+                self.run.stat('family_budget_reached:' + self.name)
+                self.told = True
+            return True
+        return False
+
+
 def shape_snapshot(prf):
     return [(tuple(it.id.id), it.rule, [tuple(p.id) for p in it.prevs], len(it.subproof.items) if it.subproof else None)
             for _, it in all_items(prf)]
@@ -149,7 +167,7 @@ def run_check(tier, seed):
     if tier != 'quick':
         r.shuffle(thms)                     # so that a time budget does not always cut the same theories
     for thy, item in thms:
-        if tier != 'quick' and time.time() - t_replay > 1500:
+        if tier != 'quick' and time.time() - t_replay > 1000:
             run.stat('replay_budget_reached')
             break
         try:
@@ -230,7 +248,10 @@ def out_of_order_family(run, r, n_goals):
     keep its invariants and re-check."""
     from kernel.type import BoolType
     stats = dict(goals=0, steps=0, copy_edits=0)
+    bud = _Budget(run, 'out_of_order')
     for gi in range(n_goals):
+        if bud.over():
+            break
         k = r.choice([2, 2, 3, 3, 4])
         atoms = r.sample(['A', 'B', 'C', 'D'], 2)
         conj = []
@@ -312,7 +333,10 @@ def snapshot_session_family(run, r, n):
     from kernel.type import BoolType, NatType, TFun
     from kernel.term import Var
     stats = dict(goals=0, steps=0)
+    bud = _Budget(run, 'snapshot_sessions')
     for gi in range(n):
+        if bud.over():
+            break
         k = r.choice([2, 2, 3])
         preds = ['P', 'Q', 'R'][:k]
         concl = r.choice(['C', 'C', 'C & D', '(C & D) & C', 'C --> D'])
@@ -387,7 +411,10 @@ def cut_use_close_family(run, r, n):
     the same three steps in the other order as control.  Invariants after every step."""
     from kernel.type import BoolType, TVar, TFun
     done = 0
+    bud = _Budget(run, 'cut_use_close')
     for _ in range(n):
+        if bud.over():
+            break
         X, Y = r.sample(['A', 'B', 'C'], 2)
         which = r.choice([0, 1])
         Z, thm_name = ((X, 'conjD1'), (Y, 'conjD2'))[which]
@@ -421,7 +448,10 @@ def cut_use_close_family(run, r, n):
                 done += 1
     # second scenario: the cut fact is used inside a block opened later, then lines are inserted BEFORE the cut line
     # (an earlier gap is worked on), so that the citation from inside the block has to follow the renumbering
+    bud = _Budget(run, 'cut_use_close_2')
     for _ in range(n):
+        if bud.over():
+            break
         X, Y, Z = r.sample(['A', 'B', 'C', 'D'], 3)
         text = '%s & %s --> %s & (%s --> %s & %s)' % (X, Y, Y, Z, X, Z)
         first = [{'method_name': 'apply_backward_step', 'goal_id': '1', 'theorem': 'conjI'},
